@@ -548,7 +548,8 @@ mod v_socket_dns {
                     unknown = true;
                 } else if e == 0 {
                     other_name = true;
-                } else if (r.ty == 1 && r.rdlen == 4) || (r.ty == 28 && r.rdlen == 16) {
+                } else if (r.ty == 1 && r.rdlen == 4 && is_a) || (r.ty == 28 && r.rdlen == 16 && !is_a) {
+                    // (address records of the type that was not asked for are ignored)
                     let o = r.rd_off;
                     let mut o16 = [m[o], m[o + 1], m[o + 2], m[o + 3], 0, 0, 0, 0, 0, 0, 0, 0, 0, 0, 0, 0];
                     if r.ty == 28 {
@@ -660,7 +661,7 @@ mod v_socket_dns {
 
     /// one answer record owned by a pointer to the question name, A data, everything well formed
     const F_ONE: Form = Form {
-        nrec: 1, o: [Owner::Ptr(QN_OFF), Owner::Ptr(QN_OFF)], rd: [Rd::A, Rd::A], qshape: 0, qclass: 1, class: [1, 1], rdlen_delta: [0, 0], cut: 0, complete: false, check_type: false, check_name: true,
+        nrec: 1, o: [Owner::Ptr(QN_OFF), Owner::Ptr(QN_OFF)], rd: [Rd::A, Rd::A], qshape: 0, qclass: 1, class: [1, 1], rdlen_delta: [0, 0], cut: 0, complete: false, check_type: true, check_name: true,
     };
     const F_TWO: Form = Form { nrec: 2, ..F_ONE };
     /// RDATA offset of record 1 when its owner is a 2-byte pointer
@@ -715,7 +716,7 @@ mod v_socket_dns {
     // @harness props=C19,C03 cfg=KN tier=q to=900 mem=8 unwind=7 opts=nomem covers=2 funcs=dns::Socket::accepts;dns::Socket::process;dns::Socket::start_query;wire::dns::Packet::parse_name;wire::dns::Question::parse;wire::dns::Record::parse;wire::dns::RecordData::parse;dns::eq_names;dns::copy_name bounds=query_name_<1>x<1>y_with_symbolic_label_bytes,_type_A_or_AAAA,_txid/port/timers_symbolic;_response_=_byte_template_with_symbolic_id/flags/QDCOUNT/ANCOUNT/NSCOUNT/ARCOUNT,_question_<1>x<1>y_with_symbolic_label_bytes_and_TYPE,_concrete_record_layout_per_arm_with_symbolic_TTL/RDATA;_source_any_IPv4_or_2001:db8::x,_ports_any;_arms:_the_single_answer_record_(owner_0xc00c)_is_a_CNAME_with_RDATA_<2>xx<0>_/_an_NS_record
     #[kani::proof]
     pub(crate) fn dns_process_no_address() {
-        let (sel, o) = one_of!(Form { rd: [Rd::CnameInline, Rd::A], check_name: false, ..F_ONE }, Form { rd: [Rd::Other, Rd::A], ..F_ONE });
+        let (sel, o) = one_of!(Form { rd: [Rd::CnameInline, Rd::A], ..F_ONE }, Form { rd: [Rd::Other, Rd::A], ..F_ONE });
         assert!(!o.completed, "prop:c19_no_completion_without_address_record");
         kani::cover!(sel == 0 && o.failed && o.rcode == 0 && o.cname_followed, "lone CNAME (inline target) failed the query");
         kani::cover!(sel == 1 && o.failed && o.rcode == 0 && o.an == 1, "NS answer failed the query");
@@ -789,28 +790,28 @@ mod v_socket_dns {
     // @harness props=C19,C03 cfg=KN tier=q to=900 mem=8 unwind=7 opts=nomem covers=1 funcs=dns::Socket::accepts;dns::Socket::process;dns::Socket::start_query;wire::dns::Packet::parse_name;wire::dns::Question::parse;wire::dns::Record::parse;wire::dns::RecordData::parse;dns::eq_names;dns::copy_name bounds=query_name_<1>x<1>y_with_symbolic_label_bytes,_type_A_or_AAAA,_txid/port/timers_symbolic;_response_=_byte_template_with_symbolic_id/flags/QDCOUNT/ANCOUNT/NSCOUNT/ARCOUNT,_question_<1>x<1>y_with_symbolic_label_bytes_and_TYPE,_concrete_record_layout_per_arm_with_symbolic_TTL/RDATA;_source_any_IPv4_or_2001:db8::x,_ports_any;_CNAME_owned_by_0xc00c_(RDATA_<1>x+pointer_to_the_question's_last_label)_then_an_A_record_owned_by_a_pointer_to_that_RDATA
     #[kani::proof]
     pub(crate) fn dns_process_cname_then() {
-        let o = process_form(Form { o: [Owner::Ptr(QN_OFF), Owner::Ptr(RD1)], rd: [Rd::CnameLabelPtr(QSUF_OFF), Rd::A], check_name: false, ..F_TWO });
+        let o = process_form(Form { o: [Owner::Ptr(QN_OFF), Owner::Ptr(RD1)], rd: [Rd::CnameLabelPtr(QSUF_OFF), Rd::A], ..F_TWO });
         kani::cover!(o.completed && o.cname_followed && o.naddr == 1, "CNAME followed");
     }
 
     // @harness props=C19,C03 cfg=KN tier=q to=900 mem=8 unwind=7 opts=nomem covers=1 funcs=dns::Socket::accepts;dns::Socket::process;dns::Socket::start_query;wire::dns::Packet::parse_name;wire::dns::Question::parse;wire::dns::Record::parse;wire::dns::RecordData::parse;dns::eq_names;dns::copy_name bounds=query_name_<1>x<1>y_with_symbolic_label_bytes,_type_A_or_AAAA,_txid/port/timers_symbolic;_response_=_byte_template_with_symbolic_id/flags/QDCOUNT/ANCOUNT/NSCOUNT/ARCOUNT,_question_<1>x<1>y_with_symbolic_label_bytes_and_TYPE,_concrete_record_layout_per_arm_with_symbolic_TTL/RDATA;_source_any_IPv4_or_2001:db8::x,_ports_any;_CNAME_owned_by_0xc00c_then_an_A_record_owned_by_0xc00c_(the_original_name)
     #[kani::proof]
     pub(crate) fn dns_process_cname_then_original() {
-        let o = process_form(Form { o: [Owner::Ptr(QN_OFF), Owner::Ptr(QN_OFF)], rd: [Rd::CnameLabelPtr(QSUF_OFF), Rd::A], check_name: false, ..F_TWO });
+        let o = process_form(Form { o: [Owner::Ptr(QN_OFF), Owner::Ptr(QN_OFF)], rd: [Rd::CnameLabelPtr(QSUF_OFF), Rd::A], ..F_TWO });
         kani::cover!(o.failed && o.cname_followed && o.other_name && o.rcode == 0, "record for the original name after a CNAME ignored");
     }
 
     // @harness props=C19,C03 cfg=KN tier=q to=900 mem=8 unwind=7 opts=nomem covers=1 funcs=dns::Socket::accepts;dns::Socket::process;dns::Socket::start_query;wire::dns::Packet::parse_name;wire::dns::Question::parse;wire::dns::Record::parse;wire::dns::RecordData::parse;dns::eq_names;dns::copy_name bounds=query_name_<1>x<1>y_with_symbolic_label_bytes,_type_A_or_AAAA,_txid/port/timers_symbolic;_response_=_byte_template_with_symbolic_id/flags/QDCOUNT/ANCOUNT/NSCOUNT/ARCOUNT,_question_<1>x<1>y_with_symbolic_label_bytes_and_TYPE,_concrete_record_layout_per_arm_with_symbolic_TTL/RDATA;_source_any_IPv4_or_2001:db8::x,_ports_any;_CNAME_owned_by_0xc00c_with_RDATA_<2>xx<0>_then_an_A_record_with_inline_owner_<1>x<1>y<0>
     #[kani::proof]
     pub(crate) fn dns_process_cname_inline() {
-        let o = process_form(Form { o: [Owner::Ptr(QN_OFF), Owner::Inline], rd: [Rd::CnameInline, Rd::A], check_name: false, ..F_TWO });
+        let o = process_form(Form { o: [Owner::Ptr(QN_OFF), Owner::Inline], rd: [Rd::CnameInline, Rd::A], ..F_TWO });
         kani::cover!(o.failed && o.cname_followed && o.rcode == 0, "address for a name other than the CNAME target ignored");
     }
 
     // @harness props=C19,C03,C07 cfg=KN tier=q to=900 mem=8 unwind=7 opts=nomem covers=1 funcs=dns::Socket::accepts;dns::Socket::process;dns::Socket::start_query;wire::dns::Packet::parse_name;wire::dns::Question::parse;wire::dns::Record::parse;wire::dns::RecordData::parse;dns::eq_names;dns::copy_name bounds=query_name_<1>x<1>y_with_symbolic_label_bytes,_type_A_or_AAAA,_txid/port/timers_symbolic;_response_=_byte_template_with_symbolic_id/flags/QDCOUNT/ANCOUNT/NSCOUNT/ARCOUNT,_question_<1>x<1>y_with_symbolic_label_bytes_and_TYPE,_concrete_record_layout_per_arm_with_symbolic_TTL/RDATA;_source_any_IPv4_or_2001:db8::x,_ports_any;_CNAME_owned_by_0xc00c_with_RDATA_<1>x+pointer_to_the_question_name_(three_labels)_then_an_A_record_owned_by_a_pointer_to_that_RDATA
     #[kani::proof]
     pub(crate) fn dns_process_cname_long() {
-        let o = process_form(Form { o: [Owner::Ptr(QN_OFF), Owner::Ptr(RD1)], rd: [Rd::CnameLabelPtr(QN_OFF), Rd::A], check_name: false, ..F_TWO });
+        let o = process_form(Form { o: [Owner::Ptr(QN_OFF), Owner::Ptr(RD1)], rd: [Rd::CnameLabelPtr(QN_OFF), Rd::A], ..F_TWO });
         kani::cover!(o.completed && o.cname_followed, "CNAME to a three-label name followed");
     }
 
@@ -1217,7 +1218,7 @@ mod v_socket_dns {
         let eff = if g.mdns { [MDNS_IPV6_ADDR, MDNS_IPV4_ADDR] } else { servers };
         let eff_n = if g.mdns { 2 } else { ns };
         let ta_eff = match g.ta { Some(t) => t, None => now + 10 * SEC };
-        let timed_out = ta_eff < now; // "after 10 s"
+        let timed_out = ta_eff <= now; // "after 10 s": at the instant poll_at reports, not one tick later
         let idx1 = g.idx + timed_out as usize;
         let ra_eff = if timed_out { 0 } else { g.ra };
         let delay_eff = if timed_out { SEC as u64 } else { g.delay };
@@ -1300,6 +1301,10 @@ mod v_socket_dns {
         let is_a: bool = kani::any();
         let _h = s.start_query(cx, QNAME, if is_a { Type::A } else { Type::Aaaa }).unwrap();
         let g = any_pending(&mut s, now, ns, servers, is_a);
+        // a query left pending by an earlier dispatch has a usable current server (dispatch fails it otherwise);
+        // replacing the server list through update_servers in between is an application call, after which the
+        // application polls anyway
+        kani::assume(g.ta.is_none() || g.mdns || !unspec(&servers[g.idx]));
         crate::vdump!("PRE now={} servers={:?} {:?}", now, &servers[..ns], s.queries[0]);
         let nowi = Instant::from_micros(now);
         let d = s.poll_at(cx);
